@@ -279,6 +279,15 @@ impl Visitor for FreeVarsVisitor {
         self.free_vars_seen.insert(symbol.name.clone());
     }
 
+    fn visit_block(&mut self, block: &ast::Block) {
+        // A `let` is only in scope until the end of its block.
+        self.local_bindings.push(FxHashSet::default());
+        for expr in &block.exprs {
+            self.visit_expr(expr);
+        }
+        self.local_bindings.pop();
+    }
+
     fn visit_expr_match(&mut self, scrutinee: &Expression, cases: &[(ast::Pattern, ast::Block)]) {
         self.visit_expr(scrutinee);
 
